@@ -346,6 +346,8 @@ var c10KernelPatterns = []string{
 	// the split of a `$*_` run in a RESULT list (of a nested function type) has to be revised because of what follows the function type
 	"func(func() ($*_, $t, $*_), $t)", "func(func() ($*_, [$n]byte, $*_)) [$n]int", "map[*func() ($*_, $t, $*_)]$t", "func(func($*_, $t, $*_), $t)",
 	"func(func() ($*_, $t), $t)", "func() (func() ($*_, $t, $*_), $t)", "struct{func() ($*_, $t, $*_); $t}", "[]func(func() ($*_, $t, $*_)) $t",
+	// a qualified name whose selector is spelt like a predeclared type (the universe types have no package)
+	"atmpl.error", "[]q.error", "map[string]p.int", "func() tmpl.error", "*p.any", "p.string",
 	"func(int) $*_", "func() ($*_, error)", "func($*_, func() $*_, $*_)", "func(func() ($*_, $k, $*_), func() ($*_, $k, $*_))",
 }
 
